@@ -9,9 +9,9 @@ from collections import abc
 
 import z3
 
-from pyvc.api import contract, LoopInv, Int, Bool, Bytes, Str, EnumOf, implies
+from pyvc.api import contract, LoopInv, Int, Bool, Bytes, Str, EnumOf, implies, sub
 from pyvc.values import SObj, LazyValue
-from specs.tlv8 import chunks_at, chunks_from, chunks, items_from, split_from, merged_end, merged_tail, frag, cont, Tlvs, Blobs
+from specs.tlv8 import chunks_at, chunks_from, chunks, chain_ok, headers_ok, items_from, split_from, merged_end, merged_tail, frag, cont, Tlvs, Blobs
 
 import aiohomekit
 from aiohomekit import tlv8
@@ -342,3 +342,510 @@ def _mk_encode(cls):
 STRUCTS = all_struct_classes()
 for _c in STRUCTS:
     _mk_encode(_c)
+
+
+# ------------------------------------------------------------------------------------------------- reading
+
+
+def _iter_outer(encoded_struct, offset, yielded):
+    """what was yielded so far, followed by what the specification reads from `offset` on, is what it reads from 0"""
+    return 0 <= offset and headers_ok(encoded_struct, offset) and yielded + items_from(encoded_struct, offset) == items_from(encoded_struct, 0)
+
+
+def _iter_inner(encoded_struct, offset, offset__entry, type, length, value):
+    b = encoded_struct
+    return (
+        0 <= offset__entry <= offset
+        and offset + 1 < len(b)
+        and type == b[offset__entry]
+        and b[offset] == type
+        and length == b[offset + 1]
+        and merged_end(b, offset) == merged_end(b, offset__entry)
+        and chain_ok(b, offset)
+        and value + merged_tail(b, offset) == frag(b, offset__entry) + merged_tail(b, offset__entry)
+    )
+
+
+def _iter_h1(encoded_struct, offset__head, offset, length):
+    """the item that was just yielded ends where the specification says"""
+    return merged_end(encoded_struct, offset__head) == offset - 2 - length
+
+
+def _iter_h2(encoded_struct, offset__head, value):
+    return value == frag(encoded_struct, offset__head) + merged_tail(encoded_struct, offset__head)
+
+
+def _iter_h3(encoded_struct, offset__head, offset, type, length):
+    return type == encoded_struct[offset__head] and length == encoded_struct[offset - 2 - length + 1] and 0 <= offset__head
+
+
+def _iter_h4(encoded_struct, offset__head, offset, type, length, value):
+    return items_from(encoded_struct, offset__head) == [(offset - 2 - length, type, length, value)] + items_from(encoded_struct, offset)
+
+
+@contract("aiohomekit.tlv8:tlv_iterator", prop="C16", modular=True)
+class TlvIterator:
+    """for EVERY byte string: the items read are those of the reading specification (fragments of exactly 255 bytes
+    are joined with a following fragment of the same type; the look-ahead stops at the end of the input) and nothing
+    is raised, provided every item header is complete (headers_ok: what a conformant sender produces)"""
+
+    params = {"encoded_struct": Bytes}
+    yielded_sort = Tlvs
+    returns = Tlvs
+    raises = {}
+
+    def complete_headers(encoded_struct):
+        return headers_ok(encoded_struct, 0)
+
+    requires = [complete_headers]
+
+    def reads_the_specified_items(encoded_struct, yielded):
+        return yielded == items_from(encoded_struct, 0)
+
+    ensures = [reads_the_specified_items]
+    loops = {0: LoopInv(_iter_outer, hints=[_iter_h1, _iter_h2, _iter_h3, _iter_h4]), 1: LoopInv(_iter_inner)}
+
+
+def _array_inv(encoded_array, separator, seq, i, start, yielded):
+    """the list items cut so far, followed by what the specification cuts from item i on (with the current start),
+    are what it cuts from the beginning"""
+    return yielded + split_from(encoded_array, seq, i, start, separator) == split_from(encoded_array, seq, 0, 0, separator)
+
+
+def _array_h1(encoded_array, separator, seq, i, start, start__head):
+    return split_from(encoded_array, seq, i - 1, start__head, separator) == (
+        [encoded_array[start__head:seq[i - 1][0]]] + split_from(encoded_array, seq, i, start, separator)
+        if seq[i - 1][1] == separator
+        else split_from(encoded_array, seq, i, start, separator)
+    )
+
+
+@contract("aiohomekit.tlv8:tlv_array", prop="C16", modular=True)
+class TlvArray:
+    """for EVERY byte string: the list is cut at every top-level item of the separator type; a non-empty remainder is
+    the last list item"""
+
+    params = {"encoded_array": Bytes, "separator": Int}
+    yielded_sort = Blobs
+    returns = Blobs
+    raises = {}
+
+    def pre(encoded_array, separator):
+        return 0 <= separator <= 255 and headers_ok(encoded_array, 0)
+
+    requires = [pre]
+
+    def cut_at_separators(encoded_array, separator, yielded):
+        return yielded == split_from(encoded_array, items_from(encoded_array, 0), 0, 0, separator)
+
+    ensures = [cut_at_separators]
+    loops = {0: LoopInv(_array_inv, index="i")}
+
+
+# ------------------------------------------------------------------------------------------------- lemmas (specification level)
+
+
+@contract("lemmas.tlv8:lemma_chunks_eq", prop="C16", modular=True)
+class LemmaChunksEq:
+    params = {"t": Int, "e": Bytes, "p": Int}
+    raises = {}
+
+    def pre(t, e, p):
+        return 0 <= t <= 255 and p % 255 == 0 and 0 <= p and (p == 0 or p - 255 < len(e))
+
+    requires = [pre]
+
+    def same_fragments(t, e, p):
+        return chunks_at(t, e, p) + chunks_from(t, e, p) == chunks_from(t, e, 0)
+
+    ensures = [same_fragments]
+
+    def decreases(p):
+        return p
+
+
+def last_len(e):
+    """length of the last fragment of a non-empty value"""
+    return len(e) - 255 * ((len(e) - 1) // 255)
+
+
+@contract("lemmas.tlv8:lemma_read_chunks", prop="C16", modular=True)
+class LemmaReadChunks:
+    params = {"b": Bytes, "pre": Bytes, "t": Int, "e": Bytes, "pos": Int, "rest": Bytes}
+    raises = {}
+
+    def pre_(b, pre, t, e, pos, rest):
+        return (
+            0 <= t <= 255
+            and pos % 255 == 0
+            and 0 <= pos < len(e)
+            and (len(rest) == 0 or rest[0] != t or len(e) % 255 != 0)
+            and b == pre + chunks_from(t, e, pos) + rest
+        )
+
+    requires = [pre_]
+
+    def one_item(b, pre, t, e, pos, rest):
+        off = len(pre)
+        end = merged_end(b, off)
+        return (
+            b[off] == t
+            and end == len(b) - len(rest) - 2 - last_len(e)
+            and b[end + 1] == last_len(e)
+            and frag(b, off) + merged_tail(b, off) == sub(e, pos, len(e) - pos)
+            and chain_ok(b, off)
+            and off + 1 < len(b)
+        )
+
+    ensures = [one_item]
+
+    def decreases(e, pos):
+        return len(e) - pos
+
+
+@contract("lemmas.tlv8:lemma_chunks_canon", prop="C16", modular=True)
+class LemmaChunksCanon:
+    params = {"t": Int, "e": Bytes}
+    raises = {}
+
+    def pre(t):
+        return 0 <= t <= 255
+
+    requires = [pre]
+
+    def same(t, e):
+        return chunks(t, e) == chunks_from(t, e, 0)
+
+    ensures = [same]
+
+
+def _digits_setup(it):
+    w = [1, 2, 4, 8, 16][it.ctx.choose(list(range(5)))]
+    return {"v": it.fresh(Int, "v"), "w": w}
+
+
+@contract("lemmas.tlv8:lemma_le_digits", prop="C16", modular=True)
+class LemmaLeDigits:
+    setup = _digits_setup
+    raises = {}
+
+    def pre(v, w):
+        return 0 <= v < 256 ** w
+
+    requires = [pre]
+
+    def digits_add_up(v, w):
+        return sum(((v // 256 ** j) % 256) * 256 ** j for j in range(w)) == v
+
+    ensures = [digits_add_up]
+
+
+@contract("lemmas.tlv8:lemma_chunks_len", prop="C16", modular=True)
+class LemmaChunksLen:
+    params = {"t": Int, "e": Bytes, "pos": Int}
+    raises = {}
+
+    def pre(t, e, pos):
+        return 0 <= t <= 255 and pos % 255 == 0 and 0 <= pos <= len(e)
+
+    requires = [pre]
+
+    def length(t, e, pos):
+        return len(chunks_from(t, e, pos)) == (len(e) - pos) + 2 * ((len(e) - pos + 254) // 255)
+
+    ensures = [length]
+
+    def decreases(e, pos):
+        return len(e) - pos
+
+
+# ------------------------------------------------------------------------------------------------- decode, per class
+#
+# The argument is the canonical encoding of a message of the class with a chosen set of fields set (shapes: all, none,
+# every second one, each field alone): b = chunks(t1, ser(v1)) + chunks(t2, ser(v2)) + ...   Reading it goes through
+# tlv_iterator BY CONTRACT (items_from(b, 0)); the lemmas turn that into the list of the fields that were written
+# (obligations `read.*` of the class's contract), and the real decode body is then executed on that list.
+
+
+def decodable(tp):
+    return supported(tp) and typing.get_origin(tp) is None
+
+
+MAX_SHAPE = 5  # classes with more fields: every window of three consecutive fields instead of "all set"
+
+
+def decode_shapes(cls):
+    """which fields are set in the message whose canonical encoding is decoded.  Reading a field depends only on the
+    field itself and on the first byte of what follows it, and the body of decode treats every item independently, so:
+    none, each field alone, every second field, and all fields (classes of up to MAX_SHAPE fields) or every window of
+    three consecutive fields (larger classes; the proof per shape is complete, the list of shapes is a stated limit)"""
+    hints = type_hints(cls)
+    names = [f.name for f in dataclasses.fields(cls) if f.init and decodable(hints.get(f.name, f.type))]
+    import os
+
+    thorough = os.environ.get("PYVC_TIER") == "thorough"
+    shapes = [()]
+    if len(names) <= MAX_SHAPE:
+        shapes += [(n,) for n in names] + [tuple(names), tuple(names[0::2]), tuple(names[1::2])]
+    elif thorough or len(names) <= 12:
+        shapes += [(n,) for n in names] + [tuple(names[i:i + 3]) for i in range(len(names) - 2)]
+    else:
+        # quick tier, very large classes (the Thread dataset, 40 fields): windows that together cover every field and
+        # every neighbourhood once (stride 2), fields with a duplicated type alone as well
+        types = [int(f.metadata["tlv_type"]) for f in dataclasses.fields(cls) if f.name in names]
+        shapes += [(n,) for n, t in zip(names, types) if types.count(t) > 1]
+        shapes += [tuple(names[i:i + 3]) for i in range(0, len(names) - 2, 2)]
+        if len(names) % 2 == 0:
+            shapes.append(tuple(names[-3:]))
+    out = []
+    for s in shapes:
+        if s not in out:
+            out.append(s)
+    return out
+
+
+def cat(parts):
+    out = b""
+    for p in parts:
+        out = out + p
+    return out
+
+
+def _chunk_def(c, t, e):
+    return c == chunks_from(t, e, 0)
+
+
+def _chunk_canon(c, t, e):
+    return c == chunks(t, e)
+
+
+def _item_fact(b, pre, c, t, e):
+    off = len(pre)
+    nxt = off + len(c)
+    return items_from(b, off) == [(nxt - 2 - last_len(e), t, last_len(e), e)] + items_from(b, nxt)
+
+
+def _item_tuple(pre, c, t, e):
+    return (len(pre) + len(c) - 2 - last_len(e), t, last_len(e), e)
+
+
+def _end_fact(b):
+    return items_from(b, len(b)) == []
+
+
+def _all_items(result, literal):
+    return result == literal
+
+
+def _hdr_fact(b, pre, c):
+    off = len(pre)
+    return headers_ok(b, off) == headers_ok(b, off + len(c))
+
+
+def _hdr_end(b):
+    return headers_ok(b, len(b))
+
+
+def _before_iter(it, ns):
+    """b is the concatenation of the fragment strings c_j = chunks_from(t_j, e_j, 0) of the fields in ghost `wire` (equal
+    to the canonical chunks(t_j, e_j) by lemma_chunks_canon, obligation read.canonical): apply the reading lemma field
+    by field and state, as obligations of the contract under proof, what reading b yields"""
+    from pyvc.verify import eval_clause, contract_tag
+    from pyvc import ops
+    from lemmas import tlv8 as L
+
+    ctx = it.ctx
+    wire = ctx.ghost["wire"]
+    b = ns["encoded_struct"]
+    tag = contract_tag(it.top_contract)
+    literal = []
+    prev_mark = getattr(ctx, "pc_mark", None)
+    cs = [w[4] for w in wire]
+    for j, (t, e, _, _, c) in enumerate(wire):
+        # (the facts about field j follow from what is established in this segment alone: tried first)
+        ctx.pc_mark = len(ctx.pc)
+        ctx.assume(ops.truth_term(eval_clause(it, _chunk_def, {"c": c, "t": t, "e": e})))  # (setup's definition, repeated)
+        it.call_function(L.lemma_chunks_canon, [t, e], {})
+        ctx.oblige(f"{tag}/read.canonical", ops.truth_term(eval_clause(it, _chunk_canon, {"c": c, "t": t, "e": e})))
+        ctx.pc_mark = len(ctx.pc)
+        for t2, e2, _, _, c2 in wire[j:j + 2]:
+            ctx.assume(ops.truth_term(eval_clause(it, _chunk_def, {"c": c2, "t": t2, "e": e2})))
+            ctx.assume(z3.Length(ops.bytes_term(e2)) >= 1)
+        it.call_function(L.lemma_chunks_len, [t, e, 0], {})
+        pre = eval_clause(it, cat, {"parts": cs[:j]})
+        rest = eval_clause(it, cat, {"parts": cs[j + 1:]})
+        it.call_function(L.lemma_read_chunks, [b, pre, t, e, 0, rest], {})
+        ctx.oblige(f"{tag}/read.field", ops.truth_term(eval_clause(it, _item_fact, {"b": b, "pre": pre, "c": c, "t": t, "e": e})))
+        ctx.oblige(f"{tag}/read.headers", ops.truth_term(eval_clause(it, _hdr_fact, {"b": b, "pre": pre, "c": c})))
+        literal.append(eval_clause(it, _item_tuple, {"pre": pre, "c": c, "t": t, "e": e}))
+    ctx.pc_mark = prev_mark
+    ctx.oblige(f"{tag}/read.end", ops.truth_term(eval_clause(it, _end_fact, {"b": b})))
+    ctx.oblige(f"{tag}/read.headers_end", ops.truth_term(eval_clause(it, _hdr_end, {"b": b})))
+    ctx.ghost["wire_items"] = literal
+
+
+def _after_iter(it, result, ns):
+    from pyvc.verify import eval_clause, contract_tag
+    from pyvc import ops
+
+    literal = it.ctx.ghost["wire_items"]
+    it.ctx.oblige(f"{contract_tag(it.top_contract)}/read.all", ops.truth_term(eval_clause(it, _all_items, {"result": result, "literal": literal})))
+    return literal
+
+
+def _is_msg(v):
+    return isinstance(v, TLVStruct)
+
+
+def _mk_decode(cls):
+    shapes = decode_shapes(cls)
+    hints = type_hints(cls)
+    flds = {f.name: f for f in dataclasses.fields(cls)}
+    all_names = [f.name for f in dataclasses.fields(cls) if f.init]
+
+    def setup(it):
+        from pyvc.verify import eval_clause
+        from pyvc import ops
+
+        shape = shapes[it.ctx.choose(list(range(len(shapes))))]
+        rank = it.fresh(Int, "rank")
+        it.ctx.assume(rank.term >= 0)
+        wire = []
+        for name in shape:
+            tp = hints.get(name, flds[name].type)
+            v = fresh_value(it, tp, f"{cls.__name__}_{name}", rank)
+            e = eval_clause(it, ser_spec, {"tp": tp, "v": v})
+            if scalar_width(tp) is not None and scalar_width(tp) > 2:
+                from lemmas import tlv8 as L
+
+                it.call_function(L.lemma_le_digits, [v, scalar_width(tp)], {})  # (positional notation, by lemma)
+            t = int(flds[name].metadata["tlv_type"])
+            it.ctx.assume(z3.Length(ops.bytes_term(e)) >= 1)  # (zero-length values are outside the property's range)
+            c = it.fresh(Bytes, f"{cls.__name__}_{name}_wire")
+            it.ctx.assume(ops.truth_term(eval_clause(it, _chunk_def, {"c": c, "t": t, "e": e})))
+            wire.append((t, e, name, v, c))
+        it.ctx.ghost["wire"] = wire
+        it.ctx.ghost["unset_names"] = [n for n in all_names if n not in shape]
+        b = eval_clause(it, cat, {"parts": [w[4] for w in wire]})
+        return {"cls": cls, "encoded_struct": b}
+
+    @contract(f"{cls.__module__}:{cls.__qualname__}.decode", prop="C16")
+    class Dec:
+        raises = {}
+
+        def exact_fields(result, wire, unset_names):
+            """decoding the canonical encoding returns exactly the field values that were encoded; the rest unset"""
+            ok = True
+            for t, e, name, v, c in wire:
+                got = getattr(result, name)
+                ok = ok and ((got is v) if _is_msg(v) else (got == v))
+            for name in unset_names:
+                ok = ok and getattr(result, name) is None
+            return ok
+
+        def right_class(cls, result):
+            return isinstance(result, cls)
+
+        ensures = [right_class, exact_fields]
+        before_calls = {"aiohomekit.tlv8:tlv_iterator": _before_iter}
+        after_calls = {"aiohomekit.tlv8:tlv_iterator": _after_iter}
+
+    Dec.setup = staticmethod(setup)
+    Dec.__name__ = f"Decode_{cls.__name__}"
+    Dec.max_paths = 3000
+    return Dec
+
+
+@contract("aiohomekit.tlv8:TLVStruct.decode", prop="C16", modular=True, assumed=True)
+class DecodeNested:
+    """a nested message (strictly shorter input) decodes to the message it is the canonical encoding of: the induction
+    hypothesis of the induction over input length; each class is discharged by its own Decode_<class> contract"""
+
+    raises = {}
+
+    @staticmethod
+    def returns(it, ns):
+        from pyvc import ops
+        from pyvc.verify import contract_tag
+
+        val = ns["encoded_struct"]
+        cands = [o for o in it.ctx.ghost.get("opaque_structs", []) if o.cls is ns["cls"]]
+        for o in cands:
+            if ops.bytes_term(o.fields["_canon"]).eq(ops.bytes_term(val)):
+                return o
+        from pyvc.values import Unsupported
+
+        raise Unsupported("decode of bytes that are not syntactically the canonical encoding of a known nested message")
+
+    def decreases(encoded_struct):
+        return len(encoded_struct)
+
+
+for _c in STRUCTS:
+    _mk_decode(_c)
+
+
+# ------------------------------------------------------------------------------------------------- packed id lists
+
+
+def _ids_setup(it):
+    from collections.abc import Sequence
+
+    n = it.ctx.choose([0, 1, 2, 3])
+    ids = []
+    for j in range(n):
+        v = it.fresh(Int, f"id{j}")
+        it.ctx.assume(z3.And(v.term >= 0, v.term < 65536))
+        ids.append(v)
+    from pyvc.verify import eval_clause
+
+    it.ctx.ghost["ids"] = ids
+    return {"value_type": Sequence[u16], "value": eval_clause(it, ser_spec, {"tp": Sequence[u16], "v": ids})}
+
+
+@contract("aiohomekit.tlv8:deserialize_typing_sequence", prop="C16")
+class DeserializeIdList:
+    """the linked services of a service signature: 16-bit little-endian instance ids packed back to back.  Decoding
+    returns exactly the ids that were encoded (0..3 ids here, the body of the real reader is executed, not its
+    contract; the bounded native stand-in covers 0..6 ids)"""
+
+    setup = _ids_setup
+    raises = {}
+    inline = ["aiohomekit.tlv8:tlv_array", "aiohomekit.tlv8:tlv_iterator"]
+
+    def the_ids_that_were_encoded(result, ids):
+        return len(result) == len(ids) and all(result[j] == ids[j] for j in range(len(ids)))
+
+    ensures = [the_ids_that_were_encoded]
+
+
+# ------------------------------------------------------------------------------------------------- bounded stand-in / replay
+
+
+def _native(tier, seed):
+    from harness import tlv8_structs
+
+    return tlv8_structs.run(tier, seed, "C16/aiohomekit.tlv8:TLVStruct#native")
+
+
+def _native_replay(env, con, obs):
+    r = _native("quick", 0)
+    want = {
+        "DeserializeIdList": ".linked-ids",
+        "SerializeSequence": ".linked-ids-encode",
+    }.get(con.__name__)
+    for f in r["failures"]:
+        if want is None or f["clause"].endswith(want):
+            f = dict(f)
+            f.update({"confirmed": True, "source": "native-harness", "key": f["clause"]})
+            return f
+    return {"confirmed": False, "inputs_tried": r["cases"]}
+
+
+TlvArray.bounded_run = staticmethod(_native)
+TlvArray.bound_note = (
+    "decoding LISTS of messages (split on separators, then per-item decode) and whole accessory databases is decided only "
+    "by this bounded stand-in: every class by reflection against an independent reference codec, sizes 1..511, 1..3 items"
+)
+for _k in (DeserializeIdList, SerializeSequence):
+    _k.replay = staticmethod(_native_replay)
